@@ -1,4 +1,5 @@
 import PgFdr.Proofs.C17
+import PgFdr.Proofs.C17Lists
 import Mathlib.Tactic.IntervalCases
 
 /-!
@@ -160,5 +161,269 @@ example : (finites ex).filter (fun p => decide (p < (1/5 : Rat))) ≠ [] := by d
 example : ∀ p ∈ finites ex, 0 ≤ p ∧ p ≤ 1 := by
   have : finites ex = [1/1000, 1/1000, 1/5] := rfl
   rw [this]; decide +kernel
+
+/-! ## Which list the callers hand to the cutoff (Model/C17Lists.lean)
+
+"For a list of posterior error probabilities …": the statements above hold for every list.  The two callers
+named in the property's anchors build that list themselves; the theorems below say WHICH list it is —
+one PEP per target, non-match-between-runs peptide that is evidence of any group, for every shared-peptide
+setting (`collectPeps`), and the PEPs of the target rows of ALL input files for the quantification entry points
+(`quantPeps`, `writerPeps`) — and lift "the order of the list [has] no influence" and "non-finite entries …
+have no influence" to the order of the peptide list, the grouping, and the order of the files. -/
+
+/-- the list handed to the cutoff by `collect_peptide_scores_per_protein` holds, in peptide-list order, exactly one
+    PEP per contributing peptide (target after `filter_proteins`, not NaN, evidence of at least one group) — not one
+    per group the peptide is evidence of -/
+theorem collect_one_pep_per_peptide (groups : List (List String)) (pil : List Row) (rz : Option C05.Razor)
+    (s u : Bool) (l : List PepVal) (h : collectPeps groups pil rz s u = .ok l) :
+    l = (pil.filter (contributes groups rz u)).map (·.score) ∧
+      l.length = (pil.filter (contributes groups rz u)).length := by
+  have h1 : l = pil.filterMap (pepOf groups rz u) := by
+    simpa using loopPeps_ok groups rz s u pil [] l h
+  have h2 : ∀ q : List Row, q.filterMap (pepOf groups rz u) = (q.filter (contributes groups rz u)).map (·.score) := by
+    intro q
+    induction q with
+    | nil => rfl
+    | cons x xs ih =>
+      rw [List.filterMap_cons, List.filter_cons, pepOf_eq_ite]
+      by_cases hc : contributes groups rz u x = true <;> simp [hc, ih]
+  rw [h1, h2]; simp
+
+/-- the collection succeeds exactly when no peptide makes the loop raise (razor on an empty protein list; no
+    known protein while the warning is not suppressed); in particular always without razor and with the warning
+    suppressed -/
+theorem collect_succeeds (groups : List (List String)) (pil : List Row) (rz : Option C05.Razor) (s u : Bool)
+    (h : ∀ x ∈ pil, rowOk groups rz s x) :
+    collectPeps groups pil rz s u = .ok ((pil.filter (contributes groups rz u)).map (·.score)) := by
+  have h1 := loopPeps_of_rowOk groups rz s u pil [] h
+  have := collect_one_pep_per_peptide groups pil rz s u _ h1
+  unfold collectPeps
+  rw [h1]; congr 1; exact this.1
+
+/-- with shared peptides a peptide contributes iff SOME listed protein is a member of SOME group (and it is a
+    target with a PEP): neither the number of groups it is evidence of nor which groups they are matters -/
+theorem withShared_contributes_iff (groups : List (List String)) (x : Row) :
+    contributes groups none true x = (known groups x.proteins && !isDecoy x.proteins && !x.score.isNan) := by
+  unfold contributes pepOf pepOfFiltered
+  simp only [C05.filterProteins, reaches_true_eq]
+  cases known groups x.proteins <;> cases isDecoy x.proteins <;> cases x.score.isNan <;> simp
+
+/-- "the PEP list does not depend on the grouping": two groupings with the same member proteins give the same
+    result (the same list, or the same refusal) when shared peptides are used -/
+theorem withShared_grouping_independent (groups groups' : List (List String)) (pil : List Row) (s : Bool)
+    (hsame : ∀ p, (∃ g ∈ groups, p ∈ g) ↔ (∃ g ∈ groups', p ∈ g)) :
+    collectPeps groups pil none s true = collectPeps groups' pil none s true := by
+  have hk : ∀ prots, known groups prots = known groups' prots := by
+    intro prots
+    have a := known_iff groups prots
+    have b := known_iff groups' prots
+    have : (∃ p ∈ prots, ∃ g ∈ groups, p ∈ g) ↔ (∃ p ∈ prots, ∃ g ∈ groups', p ∈ g) := by
+      constructor
+      · rintro ⟨p, hp, h⟩; exact ⟨p, hp, (hsame p).mp h⟩
+      · rintro ⟨p, hp, h⟩; exact ⟨p, hp, (hsame p).mpr h⟩
+    exact Bool.eq_iff_iff.mpr (by rw [a, b]; exact this)
+  have hm : ∀ prots, C05.isMissing (C05.groupIdxs groups prots) = C05.isMissing (C05.groupIdxs groups' prots) := by
+    intro prots
+    have a := reaches_true_eq groups prots
+    have b := reaches_true_eq groups' prots
+    unfold reaches at a b
+    simp only [Bool.true_or, Bool.and_true] at a b
+    have := hk prots
+    rw [← a, ← b] at this
+    cases h1 : C05.isMissing (C05.groupIdxs groups prots) <;>
+      cases h2 : C05.isMissing (C05.groupIdxs groups' prots) <;> simp_all
+  have hstep : ∀ acc x, stepPeps groups none s true acc x = stepPeps groups' none s true acc x := by
+    intro acc x
+    unfold stepPeps pepOfFiltered
+    simp only [C05.filterProteins, reaches_true_eq, hk, hm]
+  unfold collectPeps
+  generalize ([] : List PepVal) = acc
+  induction pil generalizing acc with
+  | nil => rfl
+  | cons x xs ih =>
+    simp only [loopPeps, hstep]
+    cases stepPeps groups' none s true acc x with
+    | error e => rfl
+    | ok acc' => exact ih acc'
+
+/-- "hence the cutoff is the same for discard / razor / with_shared whenever the set of contributing peptides is
+    the same": any two settings (grouping, razor data, shared-peptide switch, warning switch) under which the same
+    peptides contribute hand the same list to the cutoff and store the same cutoff -/
+theorem cutoff_same_when_same_contributors (groups groups' : List (List String)) (pil : List Row)
+    (rz rz' : Option C05.Razor) (s s' u u' : Bool) (level : Rat) (l l' : List PepVal)
+    (h : collectPeps groups pil rz s u = .ok l) (h' : collectPeps groups' pil rz' s' u' = .ok l')
+    (hsame : ∀ x ∈ pil, contributes groups rz u x = contributes groups' rz' u' x) :
+    l = l' ∧ collectCutoff groups pil rz s u level = collectCutoff groups' pil rz' s' u' level := by
+  have a := (collect_one_pep_per_peptide groups pil rz s u l h).1
+  have b := (collect_one_pep_per_peptide groups' pil rz' s' u' l' h').1
+  have : pil.filter (contributes groups rz u) = pil.filter (contributes groups' rz' u') :=
+    List.filter_congr hsame
+  have hl : l = l' := by rw [a, b, this]
+  refine ⟨hl, ?_⟩
+  unfold collectCutoff
+  rw [h, h', hl]
+
+/-- every peptide that contributes when shared peptides are discarded also contributes when they are used: the
+    discard list is a sublist of the with_shared list (same grouping, no razor) -/
+theorem discard_sublist_withShared (groups : List (List String)) (pil : List Row) (s s' : Bool)
+    (l l' : List PepVal) (h : collectPeps groups pil none s false = .ok l)
+    (h' : collectPeps groups pil none s' true = .ok l') : l.Sublist l' := by
+  rw [(collect_one_pep_per_peptide groups pil none s false l h).1,
+    (collect_one_pep_per_peptide groups pil none s' true l' h').1]
+  apply List.Sublist.map
+  apply List.monotone_filter_right
+  intro x hx
+  unfold contributes pepOf pepOfFiltered at *
+  simp only [C05.filterProteins] at *
+  by_cases hr : reaches groups false x.proteins = true
+  · have := reaches_false_imp_true groups x.proteins hr
+    rw [hr] at hx; rw [this]; exact hx
+  · simp [hr] at hx
+
+/-- "the order of the list [has] no influence", lifted to the peptide list: reordering the peptides (fixed razor
+    data) does not change the stored cutoff -/
+theorem collect_order_irrelevant (groups : List (List String)) (pil pil' : List Row) (rz : Option C05.Razor)
+    (s u : Bool) (level : Rat) (l l' : List PepVal) (hp : pil.Perm pil')
+    (h : collectPeps groups pil rz s u = .ok l) (h' : collectPeps groups pil' rz s u = .ok l') :
+    cutoff l level = cutoff l' level := by
+  apply cutoff_perm_invariant
+  rw [(collect_one_pep_per_peptide groups pil rz s u l h).1,
+    (collect_one_pep_per_peptide groups pil' rz s u l' h').1]
+  exact (hp.filter _).map _
+
+/-- the quantification writer drops the match-between-runs (NaN) PEPs before it calls the cutoff; by "non-finite
+    entries … have no influence" that changes nothing -/
+theorem writer_cutoff_eq (l : List PepVal) (level : Rat) : writerCutoff l level = cutoff l level := by
+  unfold writerCutoff cutoff
+  rw [finites_writerPeps]
+
+/-- the quantification entry points compute ONE cutoff from the rows of ALL input files: the list is the list a
+    single file holding all rows (in file order) would give -/
+theorem quant_list_is_all_rows (groups : List (List String)) (u : Bool) (files : List (List Row)) (level : Rat) :
+    quantPeps groups u files = filePeps groups u files.flatten ∧
+      quantCutoff groups u files level = quantCutoff groups u [files.flatten] level := by
+  have h := quantPeps_eq_filePeps_flatten groups u files
+  refine ⟨h, ?_⟩
+  unfold quantCutoff
+  rw [h, quantPeps_eq_filePeps_flatten groups u [files.flatten]]
+  simp
+
+/-- "the order of the list [has] no influence", lifted to the files: the cutoff is the same in whatever order
+    the files are given -/
+theorem quant_cutoff_file_order (groups : List (List String)) (u : Bool) (files files' : List (List Row))
+    (level : Rat) (h : files.Perm files') :
+    quantCutoff groups u files level = quantCutoff groups u files' level := by
+  unfold quantCutoff writerCutoff
+  apply cutoff_perm_invariant
+  apply writerPeps_perm
+  unfold quantPeps
+  exact (h.map _).flatten
+
+/-- a single file: the cutoff of that file's list -/
+theorem quant_cutoff_single_file (groups : List (List String)) (u : Bool) (f : List Row) (level : Rat) :
+    quantCutoff groups u [f] level = cutoff (filePeps groups u f) level := by
+  unfold quantCutoff
+  rw [writer_cutoff_eq]
+  simp [quantPeps]
+
+/-- every file's PEPs take part: a finite value occurs in the list the cutoff scans as often as it occurs in all
+    the files' lists together -/
+theorem quant_every_file_counts (groups : List (List String)) (u : Bool) (files : List (List Row)) (v : Rat) :
+    (finites (writerPeps (quantPeps groups u files))).count v =
+      (files.map (fun f => (finites (filePeps groups u f)).count v)).sum := by
+  rw [finites_writerPeps]
+  unfold quantPeps
+  rw [finites_flatten, List.count_flatten]
+  simp [List.map_map, Function.comp_def]
+
+/-- the cutoff of the files is the cutoff of the sorted merge of the files' finite PEPs -/
+theorem quant_cutoff_sorted_merge (groups : List (List String)) (u : Bool) (files : List (List Row)) (level : Rat) :
+    quantCutoff groups u files level =
+      (scan level 0 0 (sortAsc ((files.map (fun f => finites (filePeps groups u f))).flatten))).getD 1 := by
+  unfold quantCutoff
+  rw [writer_cutoff_eq]
+  unfold cutoff quantPeps
+  rw [finites_flatten]
+  simp [List.map_map, Function.comp_def]
+
+/-- what the writer keeps of a file's list is what the peptide-level collection (no razor, warning suppressed) would
+    collect from the same rows: all statements about `collectPeps` apply to every file's part -/
+theorem quant_file_is_collect (groups : List (List String)) (u : Bool) (rows : List Row) :
+    collectPeps groups rows none true u = .ok (writerPeps (filePeps groups u rows)) := by
+  rw [writerPeps_filePeps]
+  have := loopPeps_of_rowOk groups none true u rows [] (fun x _ => rowOk_none_true groups x)
+  simpa [collectPeps] using this
+
+/-! Non-vacuity.  (1) One peptide shared by three groups, two unique peptides, one decoy, level 1/100: with
+shared peptides the list is `[1/250, 3/250, 1/50]` (means 1/250, 1/125, 3/250 > 1/100: cutoff 1/50); with one
+copy per supported group it would be `[1/250, 1/250, 1/250, 3/250, 1/50]` (means … 6/625, no crossing: 1).
+(2) Two files whose joint cutoff differs from the cutoff of either file alone. -/
+
+private def exG : List (List String) := [["protA"], ["protB"], ["protC"], ["REV__protA"]]
+private def exPil : List Row :=
+  [⟨"SHAREDK", .fin (1/250), ["protA", "protB", "protC"]⟩, ⟨"UNIQUEAK", .fin (3/250), ["protA"]⟩,
+   ⟨"MBRK", .nan, ["protB"]⟩, ⟨"UNIQUECK", .fin (1/50), ["protC"]⟩, ⟨"DECOYK", .fin (1/1000), ["REV__protA"]⟩]
+
+example : collectPeps exG exPil none false true = .ok [.fin (1/250), .fin (3/250), .fin (1/50)] := by decide +kernel
+example : collectPeps exG exPil none false false = .ok [.fin (3/250), .fin (1/50)] := by decide +kernel
+example : copies exG true ["protA", "protB", "protC"] = 3 ∧ copies exG false ["protA", "protB", "protC"] = 0 := by
+  decide +kernel
+example : ∀ x ∈ exPil, rowOk exG none false x := by
+  intro x hx
+  refine ⟨x.proteins, rfl, ?_⟩
+  revert x; decide +kernel
+
+example : cutoff [.fin (1/250), .fin (3/250), .fin (1/50)] (1/100) = 1/50 := by
+  have hs : sortAsc (finites [.fin (1/250), .fin (3/250), .fin (1/50)]) = [1/250, 3/250, 1/50] := by
+    have : finites [.fin (1/250), .fin (3/250), .fin (1/50)] = [1/250, 3/250, 1/50] := rfl
+    rw [this]; apply sortAsc_of_sorted; decide +kernel
+  have h := cutoff_first_crossing [.fin (1/250), .fin (3/250), .fin (1/50)] (1/100) 2 (by rw [hs]; decide)
+    (by rw [hs]; decide +kernel) (by intro j hj; rw [hs]; interval_cases j <;> decide +kernel)
+  rw [h, hs]; rfl
+
+example : cutoff [.fin (1/250), .fin (1/250), .fin (1/250), .fin (3/250), .fin (1/50)] (1/100) = 1 := by
+  have hs : sortAsc (finites [.fin (1/250), .fin (1/250), .fin (1/250), .fin (3/250), .fin (1/50)])
+      = [1/250, 1/250, 1/250, 3/250, 1/50] := by
+    have : finites [.fin (1/250), .fin (1/250), .fin (1/250), .fin (3/250), .fin (1/50)]
+        = [1/250, 1/250, 1/250, 3/250, 1/50] := rfl
+    rw [this]; apply sortAsc_of_sorted; decide +kernel
+  apply cutoff_never
+  intro j hj; rw [hs] at hj ⊢
+  simp only [List.length_cons, List.length_nil] at hj
+  interval_cases j <;> decide +kernel
+
+private def exFileA : List Row :=
+  [⟨"PEPAK", .fin (1/1000), ["protA"]⟩, ⟨"PEPBK", .fin (1/50), ["protB"]⟩, ⟨"MBRK", .nan, ["protC"]⟩,
+   ⟨"DECOYK", .fin (1/10), ["REV__protA"]⟩, ⟨"SHAREDK", .fin (1/2), ["protA", "protB"]⟩]
+private def exFileB : List Row := [⟨"PEPCK", .fin (1/20), ["protC"]⟩, ⟨"UNKNOWNK", .fin (4/5), ["protZ"]⟩]
+
+example : quantPeps exG false [exFileA, exFileB] = [.fin (1/1000), .fin (1/50), .nan, .fin (1/20)] := by decide +kernel
+example : writerPeps (quantPeps exG false [exFileA, exFileB]) = [.fin (1/1000), .fin (1/50), .fin (1/20)] := by
+  decide +kernel
+example : [exFileA, exFileB].Perm [exFileB, exFileA] := List.Perm.swap _ _ _
+
+/-- both files at level 1/50: means 1/1000, 21/2000, 71/3000 > 1/50 → 1/20, a PEP of the SECOND file … -/
+example : quantCutoff exG false [exFileA, exFileB] (1/50) = 1/20 := by
+  rw [quant_cutoff_sorted_merge]
+  have hs : sortAsc (([exFileA, exFileB].map (fun f => finites (filePeps exG false f))).flatten)
+      = [1/1000, 1/50, 1/20] := by
+    have : ([exFileA, exFileB].map (fun f => finites (filePeps exG false f))).flatten = [1/1000, 1/50, 1/20] := by
+      decide +kernel
+    rw [this]; apply sortAsc_of_sorted; decide +kernel
+  rw [hs]; decide +kernel
+
+/-- … while the first file alone never crosses and the second alone crosses at once -/
+example : quantCutoff exG false [exFileA] (1/50) = 1 ∧ quantCutoff exG false [exFileB] (1/50) = 1/20 := by
+  constructor
+  · rw [quant_cutoff_sorted_merge]
+    have hs : sortAsc (([exFileA].map (fun f => finites (filePeps exG false f))).flatten) = [1/1000, 1/50] := by
+      have : ([exFileA].map (fun f => finites (filePeps exG false f))).flatten = [1/1000, 1/50] := by decide +kernel
+      rw [this]; apply sortAsc_of_sorted; decide +kernel
+    rw [hs]; decide +kernel
+  · rw [quant_cutoff_sorted_merge]
+    have hs : sortAsc (([exFileB].map (fun f => finites (filePeps exG false f))).flatten) = [1/20] := by
+      have : ([exFileB].map (fun f => finites (filePeps exG false f))).flatten = [1/20] := by decide +kernel
+      rw [this]; apply sortAsc_of_sorted; decide +kernel
+    rw [hs]; decide +kernel
 
 end PgFdr.C17
